@@ -305,6 +305,8 @@ class StmtMixin:
             return v
 
     def unpack(self, v: V, n: int, p: Path):
+        if isinstance(v, VOpaque):
+            return [VOpaque("part of " + v.what) for _ in range(n)]
         if isinstance(v, VTup):
             if len(v.items) != n:
                 return Exc("ValueError", "unpack")
@@ -357,6 +359,7 @@ class StmtMixin:
                 out.extend(ok(pf))
             return out
         if isinstance(obj, VOpaque):
+            p.ghost["$ir_dirty"] = f"attribute store .{name} on an unmodelled object at {w}"
             return [(p, NEXT)]
         raise Unsupported(f"attribute store on {obj!r} at {w}")
 
@@ -527,7 +530,7 @@ class StmtMixin:
     def ex_While(self, s, p):
         spec, k = self.loop_spec(s, p)
         if spec is None:
-            spec = LoopSpec()
+            spec = LoopSpec(modifies=[]) if self.lenient else LoopSpec()
             self.note_default_loop(p, s)
         return self.run_loop(p, s, spec, k, kind="while")
 
@@ -541,6 +544,8 @@ class StmtMixin:
 
     def for_over(self, p, s, itv):
         spec, k = self.loop_spec(s, p)
+        if self.lenient and isinstance(itv, (VOpaque,)):
+            return self.opaque_for(p, s, spec or LoopSpec(modifies=[]), k)
         # concrete short tuples: unroll exactly
         if isinstance(itv, VTup) and (spec is None or spec.unroll):
             return self.unroll_for(p, s, itv.items)
@@ -552,6 +557,74 @@ class StmtMixin:
             spec = LoopSpec()
             self.note_default_loop(p, s)
         return self.run_loop(p, s, spec, k, kind="for", seq=seq, itv=itv)
+
+    def opaque_for(self, p, s, spec, ordinal):
+        """for x in <unmodelled iterable>: an unknown number of iterations over arbitrary elements.  Cut with the
+        invariant `the fields outside spec.modifies are unchanged` (checked at the end of the body)."""
+        L = f"L{s.lineno}"
+        targets = self.assigned_names(s.body) | (self.assigned_names([s]) - self.assigned_names(s.orelse))
+        for name in targets:
+            cur = p.frame.lookup(name)
+            if cur is not None and cur.ty is not None and not isinstance(cur, (VFunc, VClass)):
+                nv = cur.ty.fresh(f"{name}_loop{ordinal}")
+                p.frame_for_store(name).locals[name] = nv
+                self.assume_typed(p, nv)
+            elif cur is not None:
+                p.frame_for_store(name).locals[name] = VOpaque(f"loop-carried {name}")
+        self.havoc_for_spec(p, spec.modifies)
+        havoc_heap = dict(p.heap)
+        if self._body_may_dirty(p, s):
+            # earlier iterations may already have touched IR state
+            p.ghost["$ir_dirty"] = p.ghost.get("$ir_dirty") or f"an earlier iteration of the loop at {L}"
+        enter = z3.Bool(fresh_name("opaque_iter"))
+        pt, pf = self.fork(p, enter, f"iter {L}")
+        out = []
+        if pt is not None:
+            for q, oc in self.assign(s.target, VOpaque("element of unmodelled iterable"), pt) if not isinstance(s.target, ast.Tuple) else \
+                    self._assign_opaque_tuple(s.target, pt):
+                if oc is not NEXT:
+                    out.append((q, oc))
+                    continue
+                for q2, oc2 in self.ex(s.body, q):
+                    if oc2 is NEXT or oc2[0] == "continue":
+                        self.check_loop_frame(q2, spec, havoc_heap, L)
+                        self.terminal(q2, f"loop-end {L}")
+                    elif oc2[0] == "break":
+                        self.check_loop_frame(q2, spec, havoc_heap, L)
+                        out.append((q2, NEXT))
+                    else:
+                        out.append((q2, oc2))
+        if pf is not None:
+            out.extend(self.ex(s.orelse, pf) if s.orelse else [(pf, NEXT)])
+        return out
+
+    def _body_may_dirty(self, p, s):
+        """Dry run of a loop body on a scratch path: can it mark the path IR-dirty?"""
+        if p.ghost.get("$ir_dirty"):
+            return False
+        n_ob, n_term = len(self.obligations), len(self.terminals)
+        scratch = p.copy()
+        for t in ast.walk(s.target) if hasattr(s, "target") else []:
+            if isinstance(t, ast.Name):
+                scratch.frame.locals[t.id] = VOpaque("element of unmodelled iterable")
+        dirty = False
+        try:
+            for q, oc in self.ex(s.body, scratch):
+                if q.ghost.get("$ir_dirty"):
+                    dirty = True
+        except Unsupported:
+            dirty = True
+        del self.obligations[n_ob:]
+        del self.terminals[n_term:]
+        return dirty
+
+    def _assign_opaque_tuple(self, target, p):
+        for t in target.elts:
+            if isinstance(t, ast.Name):
+                p.frame.locals[t.id] = VOpaque("element of unmodelled iterable")
+            elif isinstance(t, ast.Tuple):
+                self._assign_opaque_tuple(t, p)
+        return [(p, NEXT)]
 
     def unroll_for(self, p, s, items):
         res = [(p, NEXT)]
